@@ -130,3 +130,44 @@ func vhC01Step(db *DB, root string, rows []vhRow) (*DB, []vhRow) {
 	}
 	return db, rows
 }
+
+// VH_C01_two_collections: two struct types in one database are independent:
+// writes, deletes and a delete-all on one never change what the reads of the
+// other report, also across a reopen.
+func VH_C01_two_collections() {
+	cfg := vhPickCfg()
+	db, root := vhOpenDB(cfg)
+	vAssert("C01.two.create", db.Create(&vRich{}, vhSchema(cfg)) == nil)
+	var rows []vhRow
+	var rich []vhRichRow
+	o := vhNewObj()
+	vAssert("C01.two.insert_a", db.InsertOrUpdate(o) == nil)
+	rows = append(rows, vhRow{o.UUID(), *o})
+	r := vhNewRich(0, "K")
+	vAssert("C01.two.insert_b", db.InsertOrUpdate(r) == nil)
+	rich = append(rich, vhRichRow{r.UUID(), vhRichStored(r)})
+	switch vChoice("op", 5) {
+	case 0: // more writes on the first
+		o2 := vhNewObj()
+		vAssert("C01.two.insert_a2", db.InsertOrUpdate(o2) == nil)
+		rows = append(rows, vhRow{o2.UUID(), *o2})
+	case 1: // delete-all on the first
+		vAssert("C01.two.deleteall_a", db.DeleteAll(&vObj{}) == nil)
+		rows = nil
+	case 2: // delete-all on the second
+		vAssert("C01.two.deleteall_b", db.DeleteAll(&vRich{}) == nil)
+		rich = nil
+	case 3: // the same identifier stored in both collections
+		o3 := &vObj{A: vInt64("A3"), S: "s"}
+		o3.Initialize(r.UUID())
+		vAssert("C01.two.same_uuid", db.InsertOrUpdate(o3) == nil)
+		rows = append(rows, vhRow{o3.UUID(), *o3})
+	case 4: // flush / commit of one collection only
+		vAssert("C01.two.flush_a", db.FlushAllAndCommit(&vObj{}) == nil)
+	}
+	if vChoice("reopen", 2) == 1 {
+		db = vhReopen(db, root)
+	}
+	vhCheckReads("C01.two.a", db, rows)
+	vhRichReads("C01.two.b", db, rich)
+}
